@@ -74,6 +74,8 @@ var accelWideShapes = []struct {
 	{`[^x]*(?:€a|₭b)`, []rune{'a', 'b', 'x', '€', '₭', '₮'}},
 	{`\w*(?:é|è)x`, []rune{'a', 'x', 'é', 'è', 'Ã', ' '}},
 	{`(?:éx|èy)z`, []rune{'x', 'y', 'z', 'é', 'è', 'Ã'}},
+	{`aéx|aèy`, []rune{'a', 'x', 'y', 'é', 'è', 'Ã'}},
+	{`(?:aé|aè)+z`, []rune{'a', 'z', 'é', 'è', 'Ã'}},
 	{`\x{ffff}b`, []rune{'b', 'x', 0xffff, 0xfffe}},
 	{`b\x{ffff}`, []rune{'b', 'y', 0xffff, 0xfffe}},
 	{`a\x{ffff}\x{ffff}b`, []rune{'a', 'b', 0xffff}},
@@ -540,13 +542,19 @@ func legFacts(c *Ctx) {
 						}
 						pr = rev
 					}
-					chk("LeadingPrefix", true, hasPrefixFold(strView(ahead), pr, ci))
+					if !utf8.ValidString(fo.LeadingPrefix) && !rtl && !ci {
+						// the common prefix of alternation branches is cut at BYTE level (aéx|aèy: "a\xc3"): the fact
+						// is a fact about the UTF-8 bytes of the text, which is also how C04_find_prefix_sound states it
+						chk("LeadingPrefix", true, strings.HasPrefix(string(strView(ahead)), fo.LeadingPrefix))
+					} else {
+						chk("LeadingPrefix", true, hasPrefixFold(strView(ahead), pr, ci))
+					}
 				}
 				if len(fo.LeadingPrefixes) > 0 {
 					ok := false
 					ci := fo.FindMode == syntax.LeadingStrings_OrdinalIgnoreCase_LeftToRight
 					for _, s := range fo.LeadingPrefixes {
-						if hasPrefixFold(strView(ahead), []rune(s), ci) {
+						if hasPrefixFold(strView(ahead), []rune(s), ci) || (!utf8.ValidString(s) && !ci && strings.HasPrefix(string(strView(ahead)), s)) {
 							ok = true
 						}
 					}
